@@ -4,7 +4,7 @@ from props.c04 import ints, fmt
 from props.c01 import mk_sample, GATES
 LEVEL = 'proof'
 MU = 2**29
-PATTERNS = {0: 'separate result', 1: 'result = a', 2: 'result = b', 3: 'result = c', 4: 'a = b (one object)', 5: 'result = a = b = c (one object)'}
+PATTERNS = {0: 'separate result', 1: 'result = a', 2: 'result = b', 3: 'result = c', 4: 'a = b (one object)', 5: 'result = a = b = c (one object)', 6: 'inputs in read-only memory'}
 FRAME = ['tfhe_bootstrap_FFT', 'tfhe_bootstrap_woKS_FFT', 'tfhe_bootstrap', 'tfhe_bootstrap_woKS', 'lweKeySwitch', 'tLweExtractLweSample', 'tLweExtractLweSampleIndex',
          'tGswFFTExternMulToTLwe', 'tGswExternMulToTLwe', 'tGswTLweDecompH', 'tfhe_blindRotate_FFT', 'tfhe_blindRotateAndExtract_FFT', 'tLweMulByXaiMinusOne', 'tLweAddTo',
          'tGswTLweDecompH (noiseless trivial sample)', 'tGswTorus32PolynomialDecompH (zero polynomial)', 'tGswExternProduct (noiseless trivial operand, twice)', 'tfhe_bootstrap_FFT (noiseless trivial input)']
@@ -31,7 +31,7 @@ def run(ctx):
             for gi in list(range(10)) + [10, 11, 12, 13]:
                 bits = [rng.randrange(2) for _ in range(3)]
                 smp = [mk_sample(rng, s, (MU if b else -MU) + rng.randrange(-2**20, 2**20)) for b in bits]
-                pats = [0, 1, 2, 4, 5] if gi < 10 else ([0, 1] if gi in (10, 11, 12) else [0, 1, 2, 3, 4, 5])
+                pats = [0, 1, 2, 4, 5, 6] if gi < 10 else ([0, 1, 6] if gi in (10, 11, 12) else [0, 1, 2, 3, 4, 5, 6])
                 for pat in pats:
                     # the reference for an aliasing pattern: separate objects holding what the aliased objects hold
                     ref = list(smp)
